@@ -56,6 +56,8 @@ type c17Op struct {
 	// "stale" (StaleReportLogs fails: the perform logs of the poll are processed), "stalePartial" (StaleReportLogs
 	// returns its logs together with the error: they are processed too). Kind = "plain" | "canceled" | "deadline"
 	// (errors wrapping context.Canceled / DeadlineExceeded) | "panic". Logs = the "p"/"s" logs offered on that poll.
+	// transaction hash of a log ("" = none): a re-orged log keeps the hash of the version it replaces
+	Tx    string  `json:"tx,omitempty"`
 	Where string  `json:"where,omitempty"`
 	Kind  string  `json:"kind,omitempty"`
 	Logs  []c17Op `json:"logs,omitempty"`
@@ -317,13 +319,13 @@ func c17RunOne(in c17Input, r c17RunIn) (out c17RunOut) {
 					j++
 				}
 			}
-			for k, o := range batch {
+			for _, o := range batch {
 				if o.T == "p" {
 					logs.performs = append(logs.performs, ocr2keepersv2.PerformLog{Key: ocr2keepersv2.UpkeepKey(o.Key),
-						TransmitBlock: ocr2keepersv2.BlockKey(o.TB), Confirmations: o.Confs, TransactionHash: fmt.Sprintf("0x%d.%d", i, k)})
+						TransmitBlock: ocr2keepersv2.BlockKey(o.TB), Confirmations: o.Confs, TransactionHash: o.Tx})
 				} else {
 					logs.stales = append(logs.stales, ocr2keepersv2.StaleReportLog{Key: ocr2keepersv2.UpkeepKey(o.Key),
-						TransmitBlock: ocr2keepersv2.BlockKey(o.TB), Confirmations: o.Confs, TransactionHash: fmt.Sprintf("0x%d.%d", i, k)})
+						TransmitBlock: ocr2keepersv2.BlockKey(o.TB), Confirmations: o.Confs, TransactionHash: o.Tx})
 				}
 			}
 			n0 := len(logs.pPolls)
@@ -569,10 +571,17 @@ func c17Gen(r *Rng, em *Emitter) c17Input {
 	default:
 		in.Cfg.Lockout = int64(r.Range(200, 3000))*c17Second + 500_000_013
 	}
+	// "late": the lockout of everything accepted so far runs out first, only then the logs start to arrive
+	late := kind == c17Expiry && r.Chance(40)
 	if kind == c17Expiry {
 		switch r.Intn(3) {
 		case 0:
 			in.Cfg.Lockout = int64(r.Range(3, 40))*c17Second + 500_000_013
+			if late && r.Chance(20) {
+				in.Cfg.Lockout = int64(r.Range(1, 9)) * 100_000_000 // shorter than one log poll
+			} else if late {
+				in.Cfg.Lockout = int64(r.Range(20, 60))*c17Second + 500_000_013
+			}
 		case 1:
 			in.Cfg.Lockout = int64(2*time.Hour) + 500_000_013 // longer than the active-key lifetime
 		default:
@@ -613,7 +622,7 @@ func c17Gen(r *Rng, em *Emitter) c17Input {
 		}
 	}
 	confs := func() int64 {
-		switch r.Intn(6) {
+		switch r.Intn(8) {
 		case 0:
 			return int64(in.Cfg.MinConfs) - 1
 		case 1:
@@ -622,9 +631,25 @@ func c17Gen(r *Rng, em *Emitter) c17Input {
 			return int64(in.Cfg.MinConfs) + 1
 		case 3:
 			return int64(r.Range(0, 3))
+		case 4:
+			// a log that has been on chain for long: any depth counts as confirmed, up to the ends of int64
+			deep := []int64{100, 9_999, 10_000, 10_001, 14_400, 65_535, 65_536, 1<<31 - 1, 1 << 31, 1<<32 - 1, 1 << 32, 1 << 53, 1<<63 - 1}
+			return deep[r.Intn(len(deep))]
+		case 5:
+			if r.Chance(25) {
+				return []int64{-1, -2, -1 << 31, -1 << 63}[r.Intn(4)]
+			}
+			return int64(in.Cfg.MinConfs) + int64(r.Range(0, 5))
 		default:
 			return int64(in.Cfg.MinConfs) + int64(r.Range(0, 5))
 		}
+	}
+	// transaction hashes: most logs carry one; a re-orged copy keeps it
+	txHash := func() string {
+		if r.Chance(20) {
+			return ""
+		}
+		return "0x" + hx(r.Bytes(6))
 	}
 	transmit := func(k kinfo) string {
 		b := c17Big(k.blk)
@@ -679,8 +704,39 @@ func c17Gen(r *Rng, em *Emitter) c17Input {
 	if plugin && r.Chance(75) {
 		ops = append(ops, headOp())
 	}
+	cut := -1
+	npre := r.Range(1, 6)
 	for len(ops) < n {
 		k := keys[r.Intn(len(keys))]
+		if late && cut < 0 {
+			// first phase of a late history: accepts only (plus heads / observes through the plugin)
+			if len(ops) >= npre && len(accepted) > 0 {
+				cut = len(ops)
+				continue
+			}
+			if plugin && r.Chance(30) {
+				if r.Bool() {
+					ops = append(ops, headOp())
+				} else {
+					ops = append(ops, c17Op{T: "o"})
+				}
+			} else {
+				ops = append(ops, c17Op{T: "a", Key: k.key})
+				accepted[k.key] = true
+			}
+			continue
+		}
+		if late && accepted[k.key] && r.Chance(70) {
+			// second phase: mostly logs of what was accepted before the pause
+			if r.Chance(70) {
+				o := c17Op{T: "p", Key: k.key, TB: transmit(k), Confs: confs(), Tx: txHash()}
+				ops = append(ops, o)
+				performed = append(performed, o)
+			} else {
+				ops = append(ops, c17Op{T: "s", Key: k.key, TB: transmit(k), Confs: confs(), Tx: txHash()})
+			}
+			continue
+		}
 		if plugin && r.Chance(36) {
 			switch y := r.Intn(100); {
 			case y < 20:
@@ -721,9 +777,9 @@ func c17Gen(r *Rng, em *Emitter) c17Input {
 			for i, m := 0, r.Intn(3); i < m; i++ {
 				kk := keys[r.Intn(len(keys))]
 				if r.Bool() {
-					o.Logs = append(o.Logs, c17Op{T: "p", Key: kk.key, TB: transmit(kk), Confs: confs()})
+					o.Logs = append(o.Logs, c17Op{T: "p", Key: kk.key, TB: transmit(kk), Confs: confs(), Tx: txHash()})
 				} else {
-					o.Logs = append(o.Logs, c17Op{T: "s", Key: kk.key, TB: transmit(kk), Confs: confs()})
+					o.Logs = append(o.Logs, c17Op{T: "s", Key: kk.key, TB: transmit(kk), Confs: confs(), Tx: txHash()})
 				}
 			}
 			ops = append(ops, o)
@@ -742,7 +798,7 @@ func c17Gen(r *Rng, em *Emitter) c17Input {
 				ops = append(ops, c17Op{T: "o"}) // ... and again right after the accept
 			}
 		case x < 62:
-			o := c17Op{T: "p", Key: k.key, TB: transmit(k), Confs: confs()}
+			o := c17Op{T: "p", Key: k.key, TB: transmit(k), Confs: confs(), Tx: txHash()}
 			ops = append(ops, o)
 			performed = append(performed, o)
 		case x < 74 && len(performed) > 0: // re-orged perform: same key, other transmit block
@@ -760,11 +816,17 @@ func c17Gen(r *Rng, em *Emitter) c17Input {
 				o.TB = "0"
 			}
 			o.Confs = confs()
+			if r.Chance(25) {
+				o.Tx = txHash() // re-mined as another transaction
+			}
+			if r.Chance(15) {
+				o.T = "s" // the perform became a stale report in the re-org (same transaction)
+			}
 			ops = append(ops, o)
 			performed = append(performed, o)
 			em.Hit("op:reorg-perform")
 		case x < 88:
-			ops = append(ops, c17Op{T: "s", Key: k.key, TB: transmit(k), Confs: confs()})
+			ops = append(ops, c17Op{T: "s", Key: k.key, TB: transmit(k), Confs: confs(), Tx: txHash()})
 		case x < 94 && len(ops) > 0: // re-delivery of an earlier op
 			ops = append(ops, ops[r.Intn(len(ops))])
 			em.Hit("op:duplicate")
@@ -849,7 +911,16 @@ func c17Gen(r *Rng, em *Emitter) c17Input {
 	}
 	tail := int64(r.Range(0, 3)) * c17Second
 	tailRef, tailSpan, tailDelta := -1, int64(0), int64(0)
-	if kind == c17Expiry {
+	if late && cut >= 0 && cut < len(gaps) {
+		// everything before the pause has expired when the first log is polled
+		for i := range gaps {
+			if gaps[i] > c17Second {
+				gaps[i] = c17Second
+			}
+		}
+		gaps[cut] = (in.Cfg.Lockout/c17Second + int64(r.Range(1, 3))) * c17Second
+		em.Hit("kind:expiry/late")
+	} else if kind == c17Expiry {
 		win := in.Cfg.Lockout
 		switch r.Intn(4) {
 		case 0: // long pauses in the middle
@@ -921,6 +992,32 @@ func c17Edge() []c17Input {
 	A := func(ks ...string) c17Op { return c17Op{T: "A", Keys: ks} }
 	x := func(ks ...string) c17Op { return c17Op{T: "x", Keys: ks} }
 	rp := func(b string, ids ...string) c17Op { return c17Op{T: "r", Block: b, Ids: ids} }
+	// value domains: transaction hashes that survive a re-org, confirmations far beyond the minimum, and a pause longer
+	// than the lockout before the first log
+	ptx := func(k, tb string, c int64, tx string) c17Op { return c17Op{T: "p", Key: k, TB: tb, Confs: c, Tx: tx} }
+	stx := func(k string, c int64, tx string) c17Op { return c17Op{T: "s", Key: k, TB: "99", Confs: c, Tx: tx} }
+	gapAt := func(in c17Input, pos int, ns int64) c17Input {
+		for i := range in.Runs {
+			g := append([]int64(nil), in.Runs[i].Gaps...)
+			g[pos] = ns
+			in.Runs[i].Gaps = g
+		}
+		return in
+	}
+	values := []c17Input{
+		// the same transaction re-mined in another block: 25 -> 28 and (other ordering) 28 -> 25
+		mk(0, 0, 0, []c17Op{a("20|7"), ptx("20|7", "25", 3, "0xaa"), ptx("20|7", "28", 3, "0xaa")}, []int{0, 2, 1}),
+		// a perform that became a stale report in the re-org, same transaction
+		mk(0, 0, 0, []c17Op{a("20|7"), ptx("20|7", "25", 3, "0xbb"), stx("20|7", 3, "0xbb")}, []int{0, 2, 1}),
+		// first sighting of a log that is already very deep; int64 extremes
+		mk(0, 3, 0, []c17Op{a("10|7"), a("10|8"), ptx("10|7", "25", 10_001, "0xcc"), stx("10|8", 14_400, "0xdd")}),
+		mk(0, 3, 0, []c17Op{a("10|7"), a("10|8"), ptx("10|7", "25", 1<<63-1, ""), stx("10|8", 1<<32, "")}),
+		mk(0, -1, 0, []c17Op{a("10|7"), a("10|8"), ptx("10|7", "25", -1, ""), stx("10|8", -1<<63, "")}),
+		// the lockout (5.5 s) runs out first, the first confirmed logs arrive 8 s after the accepts
+		gapAt(mk(5*c17Second+500_000_013, 0, 0, []c17Op{a("10|7"), a("10|8"), ptx("10|7", "25", 3, "0xee"), stx("10|8", 0, "0xff")}), 2, 8*c17Second),
+		// … through the plugin with a lockout shorter than one log poll (300 ms)
+		mkp(300, 0, []c17Op{h("9", "7", "8"), a("10|7"), a("10|8"), o, ptx("10|7", "25", 3, "0x01"), o, stx("10|8", 0, "0x02"), h("12", "7", "8"), o, h("26", "7", "8"), o}),
+	}
 	e := func(where, kind string, logs ...c17Op) c17Op {
 		return c17Op{T: "e", Where: where, Kind: kind, Logs: logs}
 	}
@@ -954,7 +1051,7 @@ func c17Edge() []c17Input {
 		// empty registry stages nothing; empty reports are errors
 		mkp(0, 0, []c17Op{h("10", "1"), h("11"), o, A(), x(), o}),
 	}
-	return append(append(fails, plug...), []c17Input{
+	return append(append(append(values, fails...), plug...), []c17Input{
 		// accept only: pending for every block
 		mk(0, 1, 0, []c17Op{a("10|5")}),
 		// perform at 15: blocks > 15 pass
